@@ -32,3 +32,135 @@ Example order_example :
   declared_before_use (expand_h e 5 1) = true /\ declared_before_use (expand_h e 5 2) = true /\
   expand_h e 5 1 = [Declare 0; Declare 1; Use 0; Use 1; Declare 2; Use 2; Use 0; Use 1].
 Proof. vm_compute. repeat split. Qed.
+
+(* ------------------------------------------------------------------ the general statement *)
+From Coq Require Import Relations.
+
+Definition child (e : env) (a b : nat) : Prop := In b (fields (get e a)).
+Definition reach (e : env) : nat -> nat -> Prop := clos_refl_trans_1n nat (child e).
+
+Lemma depth_mono e d : forall t, depth_le e d t = true -> depth_le e (S d) t = true.
+Proof.
+  induction d as [|d IH]; intros t H.
+  - cbn in H. cbn [depth_le]. destruct (fields (get e t)); [reflexivity|discriminate].
+  - cbn [depth_le] in H |- *. rewrite forallb_forall in H |- *. intros x Hx. apply IH. apply H. exact Hx.
+Qed.
+
+Lemma depth_child e d a x : depth_le e (S d) a = true -> child e a x -> depth_le e d x = true.
+Proof. cbn [depth_le]. rewrite forallb_forall. intros H Hx. apply H. exact Hx. Qed.
+
+Lemma depth_zero_leaf e a x : depth_le e 0 a = true -> child e a x -> False.
+Proof. unfold child. cbn [depth_le]. destruct (fields (get e a)); [intros _ []|discriminate]. Qed.
+
+Lemma depth_reach e d a b : depth_le e d a = true -> reach e a b -> depth_le e d b = true.
+Proof.
+  intros H R. induction R as [a|a x b Hax _ IH]; [exact H|]. apply IH.
+  destruct d as [|d]; [exfalso; eapply depth_zero_leaf; eassumption|]. apply depth_mono. eapply depth_child; eassumption.
+Qed.
+
+(* by-value containment of bounded depth has no cycles *)
+Lemma acyclic e d : forall a x, depth_le e d a = true -> child e a x -> reach e x a -> False.
+Proof.
+  induction d as [|d IH]; intros a x H Hax R; [eapply depth_zero_leaf; eassumption|].
+  pose proof (depth_child e d a x H Hax) as Hx. pose proof (depth_reach e d x a Hx R) as Ha.
+  exact (IH a x Ha Hax R).
+Qed.
+
+Lemma reach_step e a x b : child e a x -> reach e x b -> reach e a b.
+Proof. intros H R. exact (Relation_Operators.rt1n_trans _ _ a x b H R). Qed.
+
+(* guards already defined are either declared or belong to the headers being expanded right now (A) *)
+Definition Inv (seen declared A : list nat) : Prop := forall s, In s seen -> In s declared \/ In s A.
+Definition after (declared : list nat) (evs : list ev) : list nat := rev (decls evs) ++ declared.
+
+Lemma decls_app a b : decls (a ++ b) = decls a ++ decls b.
+Proof. induction a as [|[t|t] a IH]; cbn [app decls]; [reflexivity|rewrite IH; reflexivity|exact IH]. Qed.
+
+Lemma after_app d a b : after d (a ++ b) = after (after d a) b.
+Proof. unfold after. rewrite decls_app, rev_app_distr, app_assoc. reflexivity. Qed.
+
+Lemma after_incl d evs x : In x d -> In x (after d evs).
+Proof. intros H. unfold after. apply in_or_app. right. exact H. Qed.
+
+(* one include: the specification of a well-behaved expansion step *)
+Definition step_ok (e : env) (f : nat) (A : list nat) (x : nat) : Prop :=
+  forall seen declared, Inv seen declared A -> (forall a, In a A -> ~ reach e x a) ->
+    let '(seen', evs) := expand_d e f x seen in
+    ok_from declared evs = true /\ In x (after declared evs) /\ Inv seen' (after declared evs) A.
+
+(* a sequence of includes, each well-behaved *)
+Lemma fold_ok e f A : forall xs seen declared acc,
+  (forall x, In x xs -> step_ok e f A x) -> (forall x a, In x xs -> In a A -> ~ reach e x a) ->
+  Inv seen (after declared acc) A -> ok_from declared acc = true ->
+  let '(seen', evs) := fold_left (fun '(s, acc) x => let '(s', ev') := expand_d e f x s in (s', acc ++ ev')) xs (seen, acc) in
+  ok_from declared evs = true /\ (forall x, In x xs -> In x (after declared evs)) /\ Inv seen' (after declared evs) A /\
+  (forall y, In y (after declared acc) -> In y (after declared evs)).
+Proof.
+  induction xs as [|x xs IH]; intros seen declared acc Hstep HA Hinv Hok; cbn [fold_left].
+  - repeat split; auto. intros x [].
+  - pose proof (Hstep x (or_introl eq_refl) seen (after declared acc) Hinv (fun a Ha => HA x a (or_introl eq_refl) Ha)) as Hs.
+    destruct (expand_d e f x seen) as [s' ev'] eqn:Hx. destruct Hs as (Hok' & Hin & Hinv').
+    specialize (IH s' declared (acc ++ ev')).
+    assert (Hok2 : ok_from declared (acc ++ ev') = true) by (rewrite ok_from_app, Hok; exact Hok').
+    rewrite after_app in IH. specialize (IH (fun y Hy => Hstep y (or_intror Hy)) (fun y a Hy Ha => HA y a (or_intror Hy) Ha) Hinv' Hok2).
+    destruct (fold_left _ xs (s', acc ++ ev')) as [sf evf]. destruct IH as (I1 & I2 & I3 & I4).
+    split; [exact I1|]. split; [|split; [exact I3|]].
+    + intros y [<-|Hy]; [apply I4; exact Hin|apply I2; exact Hy].
+    + intros y Hy. apply I4. apply after_incl. exact Hy.
+Qed.
+
+Lemma expand_d_ok e : forall f t A, depth_le e f t = true -> step_ok e (S f) A t.
+Proof.
+  induction f as [|f IH]; intros t A Hd seen declared Hinv HA.
+  - (* a leaf: no fields *)
+    cbn [expand_d]. destruct (mem t seen) eqn:Hm.
+    + apply mem_in in Hm. cbn [ok_from]. split; [reflexivity|]. split; [|exact Hinv].
+      unfold after. cbn. destruct (Hinv t Hm) as [H|H]; [exact H|]. exfalso. apply (HA t H). apply Relation_Operators.rt1n_refl.
+    + cbn [depth_le] in Hd. destruct (fields (get e t)) eqn:Hf; [|discriminate]. cbn [fold_left map app ok_from].
+      split; [reflexivity|]. unfold after. cbn [decls rev app]. split; [left; reflexivity|].
+      intros s [<-|Hs]; [left; left; reflexivity|]. destruct (Hinv s Hs) as [H|H]; [left; right; exact H|right; exact H].
+  - cbn [expand_d]. destruct (mem t seen) eqn:Hm.
+    + apply mem_in in Hm. cbn [ok_from]. split; [reflexivity|]. split; [|exact Hinv].
+      unfold after. cbn. destruct (Hinv t Hm) as [H|H]; [exact H|]. exfalso. apply (HA t H). apply Relation_Operators.rt1n_refl.
+    + set (fs := fields (get e t)).
+      assert (Hchild : forall x, In x fs -> depth_le e f x = true) by (intros x Hx; eapply depth_child; eassumption).
+      pose proof (fold_ok e (S f) (t :: A) fs (t :: seen) declared []) as Hfold.
+      assert (H1 : forall x, In x fs -> step_ok e (S f) (t :: A) x) by (intros x Hx; apply IH; apply Hchild; exact Hx).
+      assert (H2 : forall x a, In x fs -> In a (t :: A) -> ~ reach e x a).
+      { intros x a Hx [<-|Ha] R; [eapply (acyclic e (S f) t x); eassumption|]. apply (HA a Ha). eapply reach_step; eassumption. }
+      assert (H3 : Inv (t :: seen) (after declared []) (t :: A)).
+      { unfold after. cbn. intros s [<-|Hs]; [right; left; reflexivity|]. destruct (Hinv s Hs) as [H|H]; [left; exact H|right; right; exact H]. }
+      specialize (Hfold H1 H2 H3 eq_refl).
+      destruct (fold_left _ fs (t :: seen, [])) as [sf evf]. destruct Hfold as (F1 & F2 & F3 & _).
+      rewrite !ok_from_app, F1. cbn [andb]. split; [|split].
+      * apply andb_true_iff. split; [apply uses_after_decls_ok; exact F2|].
+        cbn [ok_from]. reflexivity.
+      * rewrite !after_app. unfold after at 1. cbn [decls rev app]. left. reflexivity.
+      * rewrite !after_app. intros s Hs. unfold after at 1. cbn [decls rev app].
+        assert (Hd2 : forall y, In y (after declared evf) -> In y (after (after declared evf) (map Use fs))).
+        { intros y Hy. apply after_incl. exact Hy. }
+        destruct (F3 s Hs) as [H|[<-|H]]; [left; right; apply Hd2; exact H|left; left; reflexivity|right; exact H].
+Qed.
+
+(* THEOREM: with include-once guards, whatever the header of a type expands to declares every type before using it,
+   for every set of types whose by-value containment is acyclic (depth bounded by the fuel), whatever refers to whatever
+   by pointer or in method signatures *)
+Theorem headers_declare_before_use e f t :
+  (forall x, depth_le e f x = true) -> declared_before_use (expand_h e (S f) t) = true.
+Proof.
+  intros Hd. unfold declared_before_use, expand_h.
+  pose proof (fold_ok e (S f) [] (sig_refs (get e t) ++ [t]) [] [] []) as Hfold.
+  assert (H1 : forall x, In x (sig_refs (get e t) ++ [t]) -> step_ok e (S f) [] x) by (intros x _; apply expand_d_ok; apply Hd).
+  specialize (Hfold H1 (fun x a _ Ha => match Ha with end)).
+  assert (H3 : Inv [] (after [] []) []) by (intros s []).
+  specialize (Hfold H3 eq_refl).
+  destruct (fold_left _ (sig_refs (get e t) ++ [t]) ([], [])) as [sf evf]. destruct Hfold as (F1 & F2 & _).
+  rewrite !ok_from_app, F1. cbn [andb]. apply andb_true_iff. split.
+  - apply uses_after_decls_ok. intros x Hx. apply F2. apply in_or_app. left. exact Hx.
+  - cbn [ok_from]. rewrite andb_true_r. apply mem_in. apply after_incl. apply F2. apply in_or_app. right. left. reflexivity.
+Qed.
+
+Example headers_theorem_applies :
+  let e := [mkT [] []; mkT [] [2; 0]; mkT [0; 1] [1]; mkT [2; 0] [3; 1]] in
+  (forall x, x < 4 -> depth_le e 2 x = true) /\ declared_before_use (expand_h e 3 3) = true.
+Proof. split; [intros x Hx; do 4 (destruct x as [|x]; [reflexivity|]); lia|vm_compute; reflexivity]. Qed.
